@@ -519,8 +519,30 @@ def run_one(choices, params):
         did(RC.H_GETROOT, "conn.root")
         for _ in range(8 + w.draw(25)):
             op = w.pick(("call", "call", "getattr", "setattr", "str", "repr", "hash", "dir", "eq", "ne", "buffiter", "iter", "ctx", "big", "delattr",
-                         "async", "timed", "surrogate"))
+                         "async", "timed", "surrogate", "classcall", "edge"))
             del seen[:]
+            if op == "edge":
+                # lengths around the size classes of the format (the 1-byte length field holds up to 255)
+                n = w.pick((255, 256, 257))
+                x = w.pick((lambda: tuple(range(n)), lambda: "a" * n, lambda: b"b" * n, lambda: int("7" * n), lambda: -int("3" * (n - 1)),
+                            lambda: "\xe9" * (n // 2), lambda: (("k",) * n, b"z" * n)))()
+                r = root.echo(x)
+                did(RC.H_CALL, "call with a length-%d value" % n)
+                if not RC.same(r, ((x,), ())):
+                    raise core.Violation("meaning-differs", "echo of a %s of length %d came back different" % (type(x).__name__, n))
+                sim.count("c19:size-class-edge")
+                continue
+            if op == "classcall":
+                # the method looked up on the proxy's class and called with the proxy (handler 8 with arguments and keywords)
+                args = tuple(values(w.draw(3)))
+                kw = dict((("zeta", "alpha", "mid")[i], v) for i, v in enumerate(values(w.draw(4))))
+                r = type(root).echo(root, *args, **kw)
+                did(RC.H_CALLATTR, "method called through the proxy class")
+                if not RC.same(r, (args, tuple(kw.items()))):
+                    raise core.Violation("meaning-differs", "Target.echo(proxy, *%r, **%r) reached the reference server as %r (keyword arguments "
+                                         "travel as (name, value) pairs in the order of the call)" % (args, kw, r))
+                sim.count("c19:callattr-with-arguments")
+                continue
             if op == "surrogate":
                 try:
                     root.echo(w.pick(("caf\udce9.txt", ("x", ("caf\udce9.txt",)))))
